@@ -294,7 +294,7 @@ def run(tier, seed):
     vlib.log("generation done at %.0fs" % (time.time() - ck.t0))
     # ---- A: the real code on every case, in parallel driver processes (each generates the same keys from the seed)
     allc = [c for f in sorted(results) for c in sorted(results[f], key=lambda c: c["i"])]
-    weight = {"sig": 6, "sigq": 6, "aead": 4, "aeadq": 4, "doclen": 1, "doclenq": 1, "seipd": 1, "pkesk": 8, "valid": 0.01, "sesskey": 0.1, "textcanon3": 1, "textcanon4": 2}
+    weight = {"sig": 6, "sigq": 6, "sigx": 6, "aead": 4, "aeadq": 4, "aeadx": 6, "textcanon5": 12, "doclen": 1, "doclenq": 1, "seipd": 1, "pkesk": 8, "valid": 0.01, "sesskey": 0.1, "textcanon3": 1, "textcanon4": 2}
     nproc = 10 if quick else 14
     bins = [[0.0, []] for _ in range(nproc)]
     for c in sorted(allc, key=lambda c: -weight.get(c["fam"], 1)):
@@ -337,7 +337,7 @@ def run(tier, seed):
     symfut.result(); symex.shutdown()
     vlib.log("symbolic model checking done at %.0fs" % (time.time() - ck.t0))
     # samples
-    for f in ("sigq", "sig", "aeadq", "aead", "seipd", "pkesk", "valid"):
+    for f in ("sigq", "sigx", "aeadq", "aeadx", "seipd", "pkesk", "valid"):
         cs = results.get(f) or []
         if cs:
             c = cs[min(len(cs) - 1, 5)]
@@ -354,7 +354,7 @@ def run(tier, seed):
     ck.cov["exhaustive_parts"] = ["every octet of every signature packet, key packet, signed object, SEIPD / AEAD / PKESK packet of the enumerated "
                                   "configurations is altered with the masks %s" % masks(tier),
                                   "validity rules: every boundary +-1 second x 13 hash ids (2600 cases)",
-                                  "all texts over {a, CR, LF} up to length %d as original x as variant" % (3 if quick else 4),
+                                  "all texts over {a, CR, LF} up to length %d as original x as variant" % (3 if quick else 5),
                                   "symbolic attacker model: all alteration sequences up to the configured depth"]
     ck.assumptions += ["hash functions, public-key schemes, block ciphers and AEAD modes are ideal (symbolic) in the specification; the driver uses the real ones with small keys (RSA-1024, DSA-1024/160, ElGamal-1024, P-256, Ed25519, P-384)",
                        "DSA / ECDSA nonces, PKCS#1 encryption padding and ECDH ephemeral keys come from libgcrypt's internal random source, which cannot be interposed; verdicts do not depend on them, violation artefacts contain the concrete octets",
